@@ -344,6 +344,10 @@ impl Check for C18 {
         }
     }
 
+    fn raw_case(&self, bytes: &[u8], _tape: &[u32]) -> J {
+        J::obj().set("layer", "A").set("deliver", hex(bytes))
+    }
+
     fn run_episode(&self, seed: u64, idx: u64, ctx: &mut Ctx<'_>, out: &mut Vec<Violation>) {
         // ---- layer A: per-packet enumeration
         let mut pre = Vec::new();
@@ -385,6 +389,30 @@ impl Check for C18 {
         let hash_key = Rng::derive(seed, "hash").next_u64();
         let gcfg = GenCfg::valid_only(&mut wl);
         let cb = gen_datagram(&mut wl, &gcfg, 5, hash_key);
+        let mut compound_delivery = |ctx: &mut Ctx<'_>, out: &mut Vec<Violation>, d: &[u8], prov: &dyn Fn() -> J| {
+            ctx.stats.evaluations += 1;
+            ctx.stats.events += 1;
+            ctx.publish_raw(idx, d, &[]);
+            let r = guarded(|| Compound::parse(d).map(|_| ()));
+            let Ok(r) = r else {
+                ctx.stats.inconclusive_panics += 1;
+                return;
+            };
+            ctx.stats.trace_digest ^= fnv1a(seed ^ 0xc0, &[code(&r)]);
+            if let Err(e) = &r {
+                ctx.stats.count("layerA_errors_checked", 1);
+                let lie = generic_lie(d, e, None).or_else(|| {
+                    if d.len() < 4 && *e != (RtcpParseError::Truncated { expected: 4, actual: d.len() }) {
+                        Some(format!("compound of {} bytes: expected Truncated{{4,{}}}, got {e:?}", d.len(), d.len()))
+                    } else {
+                        None
+                    }
+                });
+                if let Some(detail) = lie {
+                    out.push(Violation { class: "Lie:Compound".into(), detail, episode: idx, case: J::obj().set("layer", "A").set("deliver", hex(d)), provenance: prov() });
+                }
+            }
+        };
         for script in single_faults_compound(&cb.bytes) {
             let (d, fired) = apply_script(&cb.bytes, &script);
             if !fired {
@@ -393,32 +421,14 @@ impl Check for C18 {
             for f in &script {
                 ctx.stats.fault(f.kind_name(), 1);
             }
-            ctx.stats.evaluations += 1;
-            ctx.stats.events += 1;
-            let r = guarded(|| Compound::parse(&d).map(|_| ()));
-            let Ok(r) = r else {
-                ctx.stats.inconclusive_panics += 1;
-                continue;
-            };
-            ctx.stats.trace_digest ^= fnv1a(seed ^ 0xc0, &[code(&r)]);
-            if let Err(e) = &r {
-                ctx.stats.count("layerA_errors_checked", 1);
-                let lie = generic_lie(&d, e, None).or_else(|| {
-                    if d.len() < 4 && *e != (RtcpParseError::Truncated { expected: 4, actual: d.len() }) {
-                        Some(format!("compound of {} bytes: expected Truncated{{4,{}}}, got {e:?}", d.len(), d.len()))
-                    } else {
-                        None
-                    }
+            compound_delivery(ctx, out, &d, &|| cb.provenance().set("faults", J::Arr(script.iter().map(|f| f.to_json()).collect())));
+        }
+        for v in crate::lensweep::values_for(idx) {
+            for fr in crate::lensweep::compound_frames(v) {
+                crate::lensweep::with_frame(&fr, |d| {
+                    ctx.stats.fault("hdr-length-sweep", 1);
+                    compound_delivery(ctx, out, d, &|| J::obj().set("source", fr.describe()));
                 });
-                if let Some(detail) = lie {
-                    out.push(Violation {
-                        class: "Lie:Compound".into(),
-                        detail,
-                        episode: idx,
-                        case: J::obj().set("layer", "A").set("deliver", hex(&d)),
-                        provenance: cb.provenance().set("faults", J::Arr(script.iter().map(|f| f.to_json()).collect())),
-                    });
-                }
             }
         }
 
@@ -436,6 +446,7 @@ impl Check for C18 {
                 }
                 let (b, _) = packet_bytes(&mut sr, &spec, hash_key);
                 // precondition: only packets the parser accepts when intact go on the stream
+                ctx.publish_raw(idx, &b, &[]);
                 match guarded(|| Packet::parse(&b).is_ok()) {
                     Ok(true) => packets.push(b),
                     _ => skipped += 1,
